@@ -548,7 +548,7 @@ def evalB (M n : Nat) (env : Env) : B → Option Bool
     let a ← evalB M n env l
     if a then pure true else evalB M n env r
 
-inductive Res | norm | returned | div0 | defeat | retv (v : Nat)
+inductive Res | norm | returned | div0 | defeat | retv (v : Nat) | ovf
   deriving DecidableEq, Repr, Inhabited
 
 def upd (env : Env) (x : String) (v : Nat) : Env := fun y => if y = x then v else env y
@@ -566,28 +566,31 @@ def bindEnv : List String → List Nat → Env
   | _, _ => fun _ => 0
 
 /-- what a call does, given the executor `ex` for the callee's body (one unit of fuel less):
-`none` = no conclusion (unknown function, arity mismatch, the callee does not return, out of fuel, or
-the stack would not hold the callee's frame: `room` is the number of bytes between the bottom of the
-stack and the caller's frame pointer, `o` the caller's stack offset at the call);
-otherwise the events of the call, whether a division by zero ended the run (`true`), and the
-value returned. -/
+`none` = no conclusion (unknown function, arity mismatch, the callee does not return, out of fuel);
+otherwise the events of the call, the fault that ended the run if any (`div0`; or `ovf`: the
+callee's frame does not fit — `room` is the number of bytes between the bottom of the stack and the
+caller's frame pointer, `o` the caller's stack offset at the call, and the callee's stack check
+compares what is left with its frame peak; only checked builds define either), and the value
+returned. -/
 def callWith (M n : Nat) (fns : List FDecl) (w : Nat)
     (ex : (room o : Nat) → Env → S → Option (Env × List Ev × Res))
-    (room o : Nat) (env : Env) (g : String) (args : List E) : Option (List Ev × Bool × Option Nat) :=
+    (room o : Nat) (env : Env) (g : String) (args : List E) : Option (List Ev × Option Res × Option Nat) :=
   match evalArgs M n env args with
-  | none => some ([], true, none)
+  | none => some ([], some .div0, none)
   | some vs =>
     match fns.find? (fun fd => fd.name == g) with
     | none => none
     | some fd =>
-      if vs.length ≠ fd.params.length ∨ room < o ∨ room - o < pkS w (entryOff w fd.params) fd.body then none else
+      if vs.length ≠ fd.params.length ∨ room < o then none else
+      if room - o < pkS w (entryOff w fd.params) fd.body then some ([], some .ovf, none) else
       match ex (room - o) (entryOff w fd.params) (bindEnv fd.params vs) fd.body with
-      | some (_, tr, .returned) => some (tr, false, none)
-      | some (_, tr, .retv v) => some (tr, false, some v)
-      | some (_, tr, .div0) => some (tr, true, none)
+      | some (_, tr, .returned) => some (tr, none, none)
+      | some (_, tr, .retv v) => some (tr, none, some v)
+      | some (_, tr, .div0) => some (tr, some .div0, none)
+      | some (_, tr, .ovf) => some (tr, some .ovf, none)
       | _ => none
 
-/-- `none` = no conclusion: out of fuel, or out of stack (see `callWith`).  Output events only; the
+/-- `none` = no conclusion: out of fuel (see also `callWith`).  Output events only; the
 terminal flags are added by `runCore`.  `room` and `o` mirror the compiler's stack accounting
 (they only matter for calls). -/
 def exec (M n : Nat) (fns : List FDecl) (w : Nat) :
@@ -675,24 +678,24 @@ def exec (M n : Nat) (fns : List FDecl) (w : Nat) :
   | f + 1, room, o, env, .callS g args k =>
     match callWith M n fns w (exec M n fns w f) room o env g args with
     | none => none
-    | some (trc, true, _) => some (env, trc, .div0)
-    | some (trc, false, _) => do
+    | some (trc, some r, _) => some (env, trc, r)
+    | some (trc, none, _) => do
       let (env', tr, r) ← exec M n fns w f room o env k
       pure (env', trc ++ tr, r)
   | f + 1, room, o, env, .declCall x g args k =>
     match callWith M n fns w (exec M n fns w f) room o env g args with
     | none => none
-    | some (trc, true, _) => some (env, trc, .div0)
-    | some (_, false, none) => none
-    | some (trc, false, some v) => do
+    | some (trc, some r, _) => some (env, trc, r)
+    | some (_, none, none) => none
+    | some (trc, none, some v) => do
       let (env', tr, r) ← exec M n fns w f room (o + w) (upd env x v) k
       pure (env', trc ++ tr, r)
   | f + 1, room, o, env, .assignCall x g args k =>
     match callWith M n fns w (exec M n fns w f) room o env g args with
     | none => none
-    | some (trc, true, _) => some (env, trc, .div0)
-    | some (_, false, none) => none
-    | some (trc, false, some v) => do
+    | some (trc, some r, _) => some (env, trc, r)
+    | some (_, none, none) => none
+    | some (trc, none, some v) => do
       let (env', tr, r) ← exec M n fns w f room o (upd env x v) k
       pure (env', trc ++ tr, r)
 
@@ -707,7 +710,8 @@ def runCore (cf : Config) (fuel : Nat) (args : List Int) (pr : CProg) : Option (
   match exec (256 ^ cf.w) (8 * cf.w) pr.funs cf.w fuel room (entryOff cf.w pr.params)
       (argEnv (256 ^ cf.w) pr.params args) pr.body with
   | none => none
-  | some (_, tr, .div0) => some (tr ++ [Ev.flag "division_by_zero", Ev.flag "error"])
+  | some (_, tr, .div0) => if cf.checked then some (tr ++ [Ev.flag "division_by_zero", Ev.flag "error"]) else none
+  | some (_, tr, .ovf) => if cf.checked then some (tr ++ [Ev.flag "stack_overflow", Ev.flag "error"]) else none
   | some (_, tr, .defeat) => some tr
   | some (_, tr, _) => some (tr ++ [Ev.flag "win"])
 
